@@ -1,7 +1,24 @@
+//! Correspondence harness for C17 (generated IDL vs runtime behaviour).
+mod c17;
+mod sets;
+mod shipped;
+mod shipped_gen;
+mod sx;
+mod types;
+
 use star_frame::prelude::*;
+
+/// The harness program (declared at the crate root: the derive macros refer to
+/// `crate::StarFrameDeclaredProgram`).
+#[derive(StarFrameProgram, Debug)]
+#[program(instruction_set = sets::HxIdlInstructionSet, id = Pubkey::new_from_array([0x48; 32]), no_entrypoint)]
+pub struct HxIdl;
+
 fn main() {
-    let idl = <bench::Bench as star_frame::idl::ProgramToIdl>::program_to_idl().unwrap();
-    println!("{}", serde_json::to_string(&idl).unwrap().len());
-    let idl = <counter::StarFrameDeclaredProgram as star_frame::idl::ProgramToIdl>::program_to_idl().unwrap();
-    println!("{}", serde_json::to_string_pretty(&idl).unwrap());
+    let args = hx_common::Args::parse();
+    hx_common::quiet_panics();
+    match args.prop.as_str() {
+        "C17" => c17::run(&args),
+        other => panic!("hx-idl: unknown property {other}"),
+    }
 }
